@@ -269,18 +269,20 @@ def generate():
                 child_df = type(inst._from_base(fd, parent=inst)).__name__
                 child_lf = type(inst._from_base(fl, parent=inst)).__name__
                 inst_attrs = sorted(vars(inst).keys())
+                assigned = assigned_on_self(cls)
                 protected = sorted(getattr(cls, "_PROTECTED_KEYS", ())) if hasattr(cls, "_PROTECTED_KEYS") else []
                 is_attr = any(b.__name__ == "AttrDict" for b in cls.__mro__)
                 api = api_of(cls, kind, repo_root)
                 api_l = llist(["⟨%s, %s, %s, %s⟩" % (lstr(n), lbool(m), lbool(r), emit_summary(s)) for n, m, r, s in api])
                 cls_entries.append(
                     "  { name := %s, isDict := %s, validators := %s, supportsThreading := %s,\n"
-                    "    attrAccess := %s, protectedKeys := %s,\n    instAttrs := %s,\n    classAttrs := %s,\n"
+                    "    attrAccess := %s, protectedKeys := %s,\n    instAttrs := %s,\n    assignedAttrs := %s,\n    classAttrs := %s,\n"
                     "    childDict := %s, childList := %s, childDictForeign := %s, childListForeign := %s,\n    api := %s,\n"
                     "    mergeCalls := %s, mergeCtxs := %s }" % (
                         lstr(cls.__name__), lbool(is_dict), llist(validators_of(cls)),
                         lbool(bool(cls._supports_threading)), lbool(is_attr),
                         llist([lstr(k) for k in protected]), llist([lstr(k) for k in inst_attrs]),
+                        llist([lstr(k) for k in assigned]),
                         llist([lstr(k) for k in sorted(dir(cls))]),
                         lstr(child_d), lstr(child_l), lstr(child_df), lstr(child_lf), api_l,
                         llist([lstr(c) for c in merge_summary(cls, repo_root)[0]]), llist(merge_summary(cls, repo_root)[1])))
@@ -301,6 +303,35 @@ def generate():
     lines.append("def numpyPresent : Bool := %s\n" % lbool(has_numpy))
     lines.append("end SC.Generated")
     return "\n".join(lines) + "\n"
+
+
+def assigned_on_self(cls):
+    """every non-dunder attribute name assigned on `self` (Assign / AugAssign / AnnAssign targets,
+    tuple targets included) in the source of the class and of its bases inside the package"""
+    import inspect
+    import textwrap
+    out = set()
+    root = os.path.realpath(env.REPO)
+    for b in cls.__mro__:
+        try:
+            f = inspect.getsourcefile(b)
+            if not f or not os.path.realpath(f).startswith(root + os.sep):
+                continue
+            tree = ast.parse(textwrap.dedent(inspect.getsource(b)))
+        except (TypeError, OSError):
+            continue
+        for node in ast.walk(tree):
+            tg = []
+            if isinstance(node, ast.Assign):
+                tg = node.targets
+            elif isinstance(node, (ast.AugAssign, ast.AnnAssign)):
+                tg = [node.target]
+            for t in tg:
+                for tt in ast.walk(t):
+                    if isinstance(tt, ast.Attribute) and isinstance(tt.value, ast.Name) and tt.value.id == "self" \
+                            and isinstance(tt.ctx, ast.Store) and not tt.attr.startswith("__"):
+                        out.add(tt.attr)
+    return sorted(out)
 
 
 def main():
